@@ -73,6 +73,48 @@ fn check_generator(nseeds: u64, part: &mut Part) {
             }
         }
     }
+    // seeds beyond 32 bits, seeds that agree in their low / high halves, and children of children
+    let mut wide: Vec<u64> = vec![];
+    for s in 0..12u64 {
+        wide.extend([s + (1 << 32), s + (2 << 32), s << 32, (s << 32) | s, u64::MAX - s, (1 << 63) + s, s + (1 << 16), s + (1 << 48)]);
+    }
+    wide.sort();
+    wide.dedup();
+    wide.retain(|s| *s >= nseeds.min(512));
+    for &s in &wide {
+        part.transitions += 1;
+        let w = first_words(&mut Random::new(s), 8);
+        if w != first_words(&mut Random::new(s), 8) || Random::new(s).config().seed != s {
+            part.violate("C08 generator same-seed-different-stream".to_string(), format!("seed {}", s), json!({"kind": "gen", "seed": s}));
+        }
+        if let Some(o) = table.insert(w[..4].to_vec(), s) {
+            part.violate("C08 generator different-seeds-same-stream".to_string(), format!("seeds {} and {} give the same first words", o, s), json!({"kind": "gen", "seed": s}));
+        }
+    }
+    for &s in wide.iter().chain([0u64, 1, 2, 3, 4, 5].iter()) {
+        let mut parent = Random::new(s);
+        let mut children: Vec<Random> = parent.iter_children().take(3).collect();
+        for (k, c) in children.iter_mut().enumerate() {
+            // grandchildren first (they advance the child), then the child's own words
+            let grand: Vec<Random> = c.iter_children().take(2).collect();
+            for (g, mut gc) in grand.into_iter().enumerate() {
+                part.transitions += 1;
+                let w = first_words(&mut gc, 8);
+                if let Some(o) = child_table.insert(w[..4].to_vec(), (s, 100 + 10 * k + g)) {
+                    part.violate("C08 generator children-collide".to_string(), format!("descendant {} of seed {} and descendant {} of seed {} give the same stream (k = the k-th child, 100+10k+g = the g-th child of the k-th child)", o.1, o.0, 100 + 10 * k + g, s), json!({"kind": "gen", "seed": s}));
+                }
+            }
+            if s >= nseeds.min(512) {
+                part.transitions += 1;
+                let mut c2 = Random::new(c.config().seed);
+                let _ = c2.iter_children().take(2).count();
+                let w = first_words(&mut c2, 8);
+                if let Some(o) = child_table.insert(w[..4].to_vec(), (s, k)) {
+                    part.violate("C08 generator children-collide".to_string(), format!("descendant {} of seed {} and descendant {} of seed {} give the same stream", o.1, o.0, k, s), json!({"kind": "gen", "seed": s}));
+                }
+            }
+        }
+    }
     part.states += child_table.len() as u64;
     // with_rng keeps name / seed, children use the same backend
     for s in [0u64, 1, 77] {
@@ -133,6 +175,28 @@ fn check_user_generator() -> Vec<(String, String)> {
             Ok(st) => {
                 if st.borrow::<Random>().config().seed != seed {
                     out.push(("C08 user-generator replaced".to_string(), format!("Random::new({}) inserted by the user, the state holds seed {} afterwards", seed, st.borrow::<Random>().config().seed)));
+                }
+            }
+            Err(e) => out.push(("C08 user-generator run-failed".to_string(), format!("{:#}", e))),
+        }
+    }
+    // supplied through the usual "insert unless there is one" idioms: the state handed to the initialiser holds no generator yet
+    for (how, seed) in [("if !contains { insert }", 11u64), ("entry().or_insert_with()", 12)] {
+        let r = config.optimize_with(&problem, |st| {
+            if how.starts_with("if") {
+                if !st.contains::<Random>() {
+                    st.insert(Random::new(seed));
+                }
+            } else {
+                st.entry::<Random>().or_insert_with(|| Random::new(seed));
+            }
+            st.insert_evaluator(Sequential::<RealP>::new());
+            Ok(())
+        });
+        match r {
+            Ok(st) => {
+                if st.borrow::<Random>().config().seed != seed {
+                    out.push(("C08 user-generator replaced".to_string(), format!("Random::new({}) supplied by the user with `{}` in the state initialiser, the state holds seed {} afterwards", seed, how, st.borrow::<Random>().config().seed)));
                 }
             }
             Err(e) => out.push(("C08 user-generator run-failed".to_string(), format!("{:#}", e))),
@@ -256,6 +320,12 @@ fn template_equalities(spec: &dyn AnySpec, seed: u64, pools: &[usize]) -> Vec<(S
     };
     cmp("rerun-differs", &spec.run_with(Flags::default(), &opts(EvKind::Sequential, seed, false)), &mut out);
     cmp("clone-differs", &spec.run_with(Flags::default(), &opts(EvKind::Sequential, seed, true)), &mut out);
+    for (variant, what) in [(2u8, "rebuilt-through-into_builder-differs"), (3, "configuration-used-before-differs")] {
+        crate::subject::templates::CONFIG_VARIANT.with(|v| v.set(variant));
+        let o = spec.run_with(Flags::default(), &opts(EvKind::Sequential, seed, false));
+        crate::subject::templates::CONFIG_VARIANT.with(|v| v.set(0));
+        cmp(what, &o, &mut out);
+    }
     for &k in pools {
         cmp(&format!("parallel-differs pool={}", k), &spec.run_with(Flags::default(), &opts(EvKind::Parallel(k), seed, false)), &mut out);
     }
@@ -636,8 +706,8 @@ pub fn run(rep: &mut Report) {
     let res: Vec<Vec<(String, String)>> = jobs.par_iter().map(|(i, s)| template_equalities(specs[*i].as_ref(), *s, &pools)).collect();
     let mut digests = std::collections::HashSet::new();
     for ((i, s), r) in jobs.iter().zip(res) {
-        part.transitions += 3 + pools.len() as u64;
-        part.traces += 3 + pools.len() as u64;
+        part.transitions += 5 + pools.len() as u64;
+        part.traces += 5 + pools.len() as u64;
         digests.insert((specs[*i].name(), *s));
         part.outcome(specs[*i].template().to_string());
         for (sig, d) in r {
@@ -645,7 +715,7 @@ pub fn run(rep: &mut Report) {
         }
     }
     part.states = digests.len() as u64;
-    part.sample(json!({"template": specs[0].name(), "compared": "sequential, re-run, clone, Parallel on each pool size"}));
+    part.sample(json!({"template": specs[0].name(), "compared": "sequential, re-run, clone, rebuilt through into_builder, configuration used before, Parallel on each pool size"}));
     rep.push(part);
 
     // completion orders at every evaluation step
